@@ -5,6 +5,9 @@ From KV Require Import Corr.C14.   (* oclass_eqb, mism_from *)
 
 Definition cs_of (l : list gvk) : gvk -> bool := fun g => existsb (gvk_eqb g) l.
 Definition nonstr_of (l : list string) : string -> bool := fun s => str_in s l.
+(* Node.Decode on a scalar with tag t and text x: the harness ships the pairs on which it FAILS *)
+Definition decodes_of (l : list (tag * string)) : tag -> string -> bool :=
+  fun t x => negb (existsb (fun p => tag_eqb (fst p) t && String.eqb (snd p) x) l).
 
 (* strings.TrimSpace(RNode.String()) on the domain the harness restricts PathMatcher cases to:
    scalars whose emitted form is their text *)
@@ -54,7 +57,7 @@ Inductive case10 :=
 (* PatchTransformer (targeted or by-name strategic-merge entry adding a fresh annotation): the indices of the resources that changed *)
 | KPatch (tab : ptab) (cs : list gvk) (e : patch_entry) (docs : list node) (cls : oclass) (changed : list nat)
 (* replacement.Filter *)
-| KRepl (tab : ptab) (ns : list string) (cs : list gvk) (rps : list replacement) (docs : list node)
+| KRepl (tab : ptab) (ns : list string) (undec : list (tag * string)) (cs : list gvk) (rps : list replacement) (docs : list node)
         (cls : oclass) (after : list node).
 
 Definition agree_res {A} (eqb : A -> A -> bool) (r : res A) (cls : oclass) (obs : A) : bool :=
@@ -115,9 +118,9 @@ Definition agree10 (c : case10) : bool :=
           match mark_all hits d with Ok m => node_eqb m marked | _ => false end
       | r => oclass_eqb cls (class_of r)
       end
-  | KRepl tab ns cs rps docs cls after =>
+  | KRepl tab ns undec cs rps docs cls after =>
       agree_res nodes_eqb
-        (replacement_filter (parse_of tab) enc10 (nonstr_of ns) simple_lsel corr_fuel rps docs) cls after
+        (replacement_filter (parse_of tab) enc10 (nonstr_of ns) (decodes_of undec) simple_lsel corr_fuel rps docs) cls after
   end.
 
 Definition mismatches10 (l : list case10) : list N := mism_from agree10 0%N l.
